@@ -227,7 +227,9 @@ class List(AnnotationBase):
     @property
     def attr_types(self) -> Iterator[str]:
         """Return the attr types for this element."""
-        if self.item_type:
+        if self.simple_type:
+            yield from self.simple_type.attr_types
+        elif self.item_type:
             yield self.item_type
 
     def get_restrictions(self) -> dict[str, Anything]:
